@@ -278,17 +278,19 @@ theorem handshake_terminates {s0 : SY.Sys} {σ : Nat → Mv} {st : Nat → SY.Sy
 
 /-! ## full statements that the code does not meet -/
 
-/-- the full clause "the old frame is released": after `preparePageForMigration` the old physical page is
-    in the free list of the device it belonged to -/
-def old_frame_released_full : Prop :=
+/-- "the old frame is released by `preparePageForMigration` itself": after the call the old physical page is in
+    the free list of the device it belonged to -/
+def old_frame_released_by_prepare : Prop :=
   ∀ (a a' : Alloc) (pid vaddr gpu old : Nat) (pg : Page), prepare a pid vaddr gpu = .ok (pg, old, a') →
     ∃ f ∈ a'.free, old ∈ f
 
-/-- **refuted**: the driver never frees the old page (`AllocatePageWithGivenVAddr` only takes a frame);
-    witness: CPU with 2 pages, two GPUs with 2 pages each, a page of process 1 on GPU 1 is re-homed to
-    GPU 2 — its old frame 0x3000 is in no free list afterwards (nor mapped: a leak, reproduced on the real
-    driver as `C19.drv.old-frame-not-released`) -/
-theorem old_frame_released_full_refuted : ¬ old_frame_released_full := by
+/-- **refuted — and rightly so**: `preparePageForMigration` only takes a frame (`AllocatePageWithGivenVAddr`); the
+    page migration controller still READS the old frame, so it must not be reusable yet. Witness: CPU with 2
+    pages, two GPUs with 2 pages each, a page of process 1 on GPU 1 is re-homed to GPU 2 — its old frame 0x3000 is
+    in no free list afterwards (nor mapped). Before the repair of finding `C19-old-frame-not-released` nothing
+    gave it back later either (`old_frame_released_before_fix_refuted`); now the driver gives it back when the
+    page's `PageMigrationRspToDriver` arrives (`old_frame_released_full`). -/
+theorem old_frame_released_by_prepare_refuted : ¬ old_frame_released_by_prepare := by
   intro h
   have ha : (mkAlloc 12 2 [2, 2]).allocate 1 1 1 = .ok (match (mkAlloc 12 2 [2, 2]).allocate 1 1 1 with
     | .ok a => a
@@ -303,6 +305,104 @@ theorem old_frame_released_full_refuted : ¬ old_frame_released_full := by
   obtain ⟨f, hf, hd⟩ := h A a' 1 4096 1 12288 pg hp1
   exact hp2 f hf hd
 
+/-- **old_frame_released_full — a THEOREM since the repair of finding `C19-old-frame-not-released`.** In every
+    reachable state of the closed system (real driver, command processors, page migration controllers, MMU) in
+    which the acknowledgement of the migrate command in flight is at the head of the driver's GPU port:
+    `processReturnReq` does not fault, and the old frame the driver remembered when it sent that command
+    (`currentlyMigratingFromPAddr`, set by `sendMigrationReqToCP` to the command's `ToReadFromPhysicalAddress`:
+    `sMig_remembers_old_frame`) is appended to the free list of the device whose address range holds it — one of
+    the two GPUs, the frame lies inside that GPU's memory — every other free list and the page table are
+    unchanged. It is given back exactly then, not earlier: until the acknowledgement the page migration
+    controller reads the frame (`handshake_window`). -/
+theorem old_frame_released_full {s : SY.Sys} (h : SY.Reach s) (rest : List Ans) (hin : s.drv.gpuIn = .mig :: rest) :
+    ∃ d l, (d = 1 ∨ d = 2) ∧ s.drv.alloc.free[d]? = some l ∧
+      s.drv.ret.1.fault = none ∧ s.drv.ret.1.alloc.free = s.drv.alloc.free.set d (l ++ [s.drv.oldF]) ∧
+      s.drv.ret.1.alloc.table = s.drv.alloc.table ∧ s.drv.alloc.deviceOf s.drv.oldF = some d ∧
+      s.drv.oldF + (1 <<< s.drv.alloc.lg) ≤ (s.w.sys.mem (d - 1)).size := by
+  have I := SY.reach_inv h
+  have nf := I.nf
+  cases I.ph with
+  | idle di _ _ _ => rw [di.gpuIn] at hin; cases hin
+  | bcast p r σ loc hp _ _ _ _ _ _ bc _ _ _ _ =>
+    exact absurd (bc.gpuIn.symm.trans hin) (c4_no_mig p r hp _ rest)
+  | mig r fl ws hh hc rq ct mp wi mi rh =>
+    have hg := mp.gpuIn
+    rw [hin] at hg
+    have hone : s.drv.one = true := by
+      rcases fl with _ | ⟨m, a⟩
+      · simp [flIn] at hg
+      · simpa using mp.one
+    obtain ⟨d, hd12, hdev, hb⟩ := I.rel.flying hone
+    obtain ⟨l, hl, hrel⟩ := c4_release s.drv.alloc s.drv.oldF d I.rel.ranges hdev
+    refine ⟨d, l, hd12, hl, ?_⟩
+    have hrest : rest = [] := by
+      rcases fl with _ | ⟨m, a⟩
+      · simp [flIn] at hg
+      · cases a <;> simp [flIn] at hg
+        exact hg
+    subst hrest
+    have hmig : s.drv.mig = s.drv.toCP.length + 1 := by have := mp.ctr; rw [← mp.one, hone] at this; simpa using this
+    by_cases he : s.drv.toCP = []
+    · have hd : CP.dec s.drv.mig = 0 := by rw [hmig, c4_dec_succ, he]; rfl
+      have hr0 : s.drv.restart = 0 := by have := ct.2.2.2.1; simpa using this
+      have htm : s.drv.toMMU = none := (mi.fresh (by simp)).1
+      rw [c4_ret_zero s.drv [] r _ nf hin hone hrel hd hc hr0 rq.accLt rq.accIn htm]
+      exact ⟨nf, rfl, rfl, hdev, hb⟩
+    · have hd : CP.dec s.drv.mig ≠ 0 := by
+        rw [hmig, c4_dec_succ]; exact fun h0 => he (List.length_eq_zero_iff.mp h0)
+      rw [c4_ret_ne s.drv [] _ nf hin hone hrel hd]
+      exact ⟨nf, rfl, rfl, hdev, hb⟩
+
+/-- `sendMigrationReqToCP` remembers the old frame of the command it sends -/
+theorem sMig_remembers_old_frame (d : Drv) (h : d.sMig.2 = true) :
+    ∃ m rest, d.toCP = m :: rest ∧ d.sMig.1.oldF = m.rd ∧ d.sMig.1.one = true ∧ d.sMig.1.toCP = rest := by
+  unfold Drv.sMig at h ⊢
+  by_cases hf : d.fault.isSome = true
+  · simp [hf] at h
+  · cases hq : d.toCP with
+    | nil => simp [hf, hq] at h
+    | cons m rest =>
+      by_cases ho : d.one = true
+      · simp [hf, hq, ho] at h
+      · by_cases hl : d.gpuOut.length < d.capGpuOut
+        · exact ⟨m, rest, rfl, by simp [hf, ho, hl]⟩
+        · simp [hf, hq, ho, hl] at h
+
+/-- `processReturnReq` BEFORE the repair: the acknowledgement of a migrate command only decremented the counter
+    and cleared `isCurrentlyMigratingOnePage` (the repaired function with the flag already cleared releases
+    nothing) -/
+def retBeforeRelease (d : Drv) : Drv × Bool :=
+  match d.gpuIn with
+  | .mig :: _ => ({ d with one := false } : Drv).ret
+  | _ => d.ret
+
+/-- CPU and two GPUs with two frames each; frame 0x3000 of GPU 1 is in use (not on its free list) -/
+def demoRelAlloc : Alloc :=
+  { lg := 12, free := [[4096, 8192], [16384], [20480, 24576]], range := [(4096, 8192), (12288, 8192), (20480, 8192)] }
+
+/-- the full clause for the code before the repair: after the acknowledgement the remembered old frame is in
+    some free list -/
+def old_frame_released_before_fix : Prop :=
+  ∀ d : Drv, d.fault = none → d.one = true → (∃ rest, d.gpuIn = .mig :: rest) →
+    ∃ f ∈ (retBeforeRelease d).1.alloc.free, d.oldF ∈ f
+
+/-- **refuted — the former finding `C19-old-frame-not-released`**: two GPUs with two frames each, the command in
+    flight migrates a page away from frame 0x3000 of GPU 1; after the acknowledgement (old code) the frame is in no
+    free list, and no page-table entry names it: lost for ever. On the repaired code the same state gives it
+    back to GPU 1 (`example` below). -/
+theorem old_frame_released_before_fix_refuted : ¬ old_frame_released_before_fix := by
+  intro h
+  have := h { ngpu := 2, nPmc := 2, alloc := demoRelAlloc, one := true, oldF := 12288, mig := 2,
+              cur := some ⟨0, 1, 1, [1], [], 4096⟩, handling := true, gpuIn := [.mig] } rfl rfl ⟨[], rfl⟩
+  revert this
+  decide
+
+example : (({ ngpu := 2, nPmc := 2, alloc := demoRelAlloc, one := true, oldF := 12288, mig := 2,
+              cur := some ⟨0, 1, 1, [1], [], 4096⟩, handling := true, gpuIn := [.mig] } : Drv).ret.1.alloc.free) =
+    [[4096, 8192], [16384, 12288], [20480, 24576]] ∧
+    (({ ngpu := 2, nPmc := 2, alloc := demoRelAlloc, one := true, oldF := 12288, mig := 2,
+        cur := some ⟨0, 1, 1, [1], [], 4096⟩, handling := true, gpuIn := [.mig] } : Drv).ret.1.fault) = none := by decide
+
 /-- the full clause "every request is answered" for an MMU that may have several requests outstanding and
     may leave answers in the driver's port: no answer is ever overwritten in `toSendToMMU` -/
 def mmu_answer_any_mmu_full : Prop :=
@@ -316,6 +416,7 @@ def mmu_answer_any_mmu_full : Prop :=
 theorem mmu_answer_any_mmu_full_refuted : ¬ mmu_answer_any_mmu_full := by
   intro h
   have := h { ngpu := 2, nPmc := 2, cur := some ⟨2, 1, 1, [1], [], 4096⟩, handling := true, mig := 1, one := true,
+              alloc := mkAlloc 12 2 [2, 2], oldF := 12288,
               gpuIn := [.mig], toMMU := some (1, []), mmuOut := [(0, [])] } rfl rfl
   revert this
   decide
@@ -401,7 +502,8 @@ theorem reach_run {s : SY.Sys} (h : SY.Reach s) (ms : List Mv) (hv : ms.all okB 
     exact ih (SY.Reach.step m h (ok_of_okB s m hv.1)) hv.2
 
 theorem demo_init : Init demoS0 := by
-  refine ⟨by decide, by decide, rfl, fun _ => ?_, fun _ => rfl, fun _ => rfl, ⟨_, _, rfl⟩, fun _ => rfl, ⟨rfl, rfl⟩, ?_, by decide⟩
+  refine ⟨by decide, by decide, rfl, fun _ => ?_, fun _ => rfl, fun _ => rfl, ⟨_, _, rfl⟩, fun _ => rfl, ⟨rfl, rfl⟩, ?_, by decide,
+    by unfold RangeOK; decide +kernel⟩
   · show CfgOK ({ nS := 0, nV := 0, n2 := 0 } : Cp)
     exact ⟨by decide, by decide, by decide, by decide, by decide, by decide, by decide, by decide, by decide,
       by decide, by decide, by decide, by decide⟩
